@@ -267,6 +267,11 @@ func c17Faults() []nodeFn {
 		func() *rt.Node { return rt.Slice(Id("l"), Id("m"), nil, nil, false) },
 		func() *rt.Node { return rt.Slice(Id("x"), I(0), I(1), nil, false) },
 		func() *rt.Node { return rt.Slice(Id("l"), nil, Id("l"), nil, false) },
+		func() *rt.Node { return rt.Slice(Id("l"), nil, Id("m"), I(1), true) },
+		func() *rt.Node { return rt.Slice(Id("l"), I(0), Id("m"), nil, false) },
+		func() *rt.Node { return rt.Slice(Id("l"), nil, nil, Id("m"), true) },
+		func() *rt.Node { return rt.Slice(Id("l"), I(0), I(1), Id("m"), true) },
+		func() *rt.Node { return rt.Slice(S("abc"), nil, Id("m"), nil, false) },
 		func() *rt.Node { return rt.Map(Id("x"), I(1)) },
 		func() *rt.Node { return rt.Call("load_json", I(5)) },
 		func() *rt.Node { return rt.Call("load_json", S("{bad")) },
@@ -459,8 +464,20 @@ func c17OneChain(w *run.Worker, idx []int, files []string, poss []token.LnColPos
 		if c1.PosChain[len(c1.PosChain)-1].File != fi || c2.PosChain[len(c2.PosChain)-1].File != "other.p" {
 			w.Violate("C17:chain:copies-share-storage", fmt.Sprintf("two copies appended independently: %v / %v", c1.PosChain, c2.PosChain), mk)
 		}
-		e = e.Copy().ChainAppend(fi, pi)
+		// rendering an error does not freeze it: render, extend, render again
+		if mi%2 == 1 {
+			_ = e.Error()
+		}
+		if mi%3 == 0 {
+			e = e.Copy().ChainAppend(fi, pi)
+		} else {
+			e = e.ChainAppend(fi, pi)
+		}
 		want += fmt.Sprintf("\n%s:%d:%d:", fi, pi.Ln, pi.Col)
+		if got := e.Error(); got != want {
+			w.Violate("C17:chain:rendering-after-append", fmt.Sprintf("after appending entry %d: Error() = %q, want %q", i, got, want), mk)
+			return
+		}
 	}
 	if got := e.Error(); got != want {
 		w.Violate("C17:chain:rendering", fmt.Sprintf("Error() = %q, want %q", got, want), mk)
